@@ -123,6 +123,28 @@ def neighbour_count(ow, cut2, B, species):
     return max(per.values()) if per else 0, sum(per.values())
 
 
+def plan_cut(ow, allowed, nshell, K, budget, rng):
+    """(nshell, K, cut2, B) with the cutoff midway between shells nshell and nshell+1, shrunk until the number of
+    candidate site sets TLC has to look at is within budget; None if nothing is left."""
+    while nshell >= 1:
+        sh, B = shells(ow, nshell)
+        if sh is None or len(sh) <= nshell:
+            nshell -= 1
+            continue
+        cut2 = sh[nshell - 1] + sh[nshell]
+        B = box_for(ow, cut2)
+        nmax, ntot = neighbour_count(ow, cut2, B, set(allowed))
+        work = sum(math.comb(nmax, n) for n in range(K)) * sum(len(ow["basis"][c]) for c in allowed)
+        big = max(abs(x) for r in ow["M"] for x in r) * (ow["D"] * (B + 2)) ** 2 * ow["dim"] ** 2
+        if work <= budget and big < 2 ** 30 and B <= 4:
+            return nshell, K, cut2, B
+        if K > 2 and (nshell == 1 or rng.random() < 0.5):
+            K -= 1
+        else:
+            nshell -= 1
+    return None
+
+
 # ------------------------------------------------------------------ projection
 
 def proj_cluster(cl):
@@ -166,7 +188,7 @@ def make_cluster(cluster, sites, kind):
     return cluster.Cluster(lst, transition=t, vacancy=v)
 
 
-def eq_items(rng, ow, bases, cap=44):
+def eq_items(rng, ow, bases, cap=80):
     """Raw site lists + kinds: for every base cluster its reorderings, translates and near misses."""
     d = ow["dim"]
     nsp = {"plain": 0, "vac": 1, "ts": 2, "vts": 2}
@@ -191,6 +213,14 @@ def eq_items(rng, ow, bases, cap=44):
         if kind in ("ts", "vts"):                      # ends exchanged (same cluster for "ts", a different one for "vts")
             add(shift([special[1], special[0]] + rest, [rng.randint(-1, 1) for _ in range(d)]), kind)
         # near misses
+        if len(sites) >= 2:                            # every lattice vector negated (the cluster inverted through a cell)
+            add([[s[0], [-x for x in s[1]]] for s in sites], kind)
+        if k0 == 2 and len(sites) >= 3 and len(set(map(str, sites))) == len(sites):
+            # the same set of sites with another pair of them as the two ends of the transition
+            alts = [(p, r) for p in range(len(sites)) for r in range(len(sites)) if p != r and (p, r) != (0, 1)]
+            rng.shuffle(alts)
+            for p, r in alts[:4]:
+                add([sites[p], sites[r]] + [s for n, s in enumerate(sites) if n not in (p, r)], kind)
         if rest:
             j = rng.randrange(len(rest))
             e = [0] * d
@@ -228,6 +258,30 @@ def eq_case(cluster, rng, ow, bases):
     return {"type": "eq", "w": ow, "items": items, "eq": eq, "ne": ne, "hid": [rank[h] for h in hs]}
 
 
+def eq_witness(case):
+    """A pair of table entries on which == disagrees with the geometry (for the message only; TLC gave the verdict)."""
+    nsp = {"plain": 0, "vac": 1, "ts": 2, "vts": 2}
+
+    def form(it):
+        s, k = it["sites"], it["kind"]
+        n = len(s)
+        c = [sum(x[1][d] for x in s) for d in range(len(s[0][1]))]
+        sh = [(tuple(x[0]), tuple(n * a - b for a, b in zip(x[1], c))) for x in s]
+        sp = sh[:nsp[k]]
+        return (k, n, frozenset(sp) if k == "ts" else tuple(sp), frozenset(sh[nsp[k]:]))
+
+    items = case["items"]
+    fs = [form(it) for it in items]
+    for a in range(len(items)):
+        for b in range(a + 1, len(items)):
+            same = fs[a] == fs[b]
+            if same != bool(case["eq"][a][b]) or (case["eq"][a][b] and case["hid"][a] != case["hid"][b]):
+                return "e.g. %s %s vs %s %s: == is %s, hashes %s, same geometry is %s" % (
+                    items[a]["kind"], items[a]["sites"], items[b]["kind"], items[b]["sites"], bool(case["eq"][a][b]),
+                    "equal" if case["hid"][a] == case["hid"][b] else "differ", same)
+    return "(no witness pair found by the harness)"
+
+
 # ------------------------------------------------------------------ main
 
 def run(ctx):
@@ -243,11 +297,12 @@ def run(ctx):
     ctx.assumptions.append("the jump network given to makeTSclusters is the crystal's own (crys.jumpnetwork); its closure "
                            "under symmetry and reversal is checked by the spec and is a precondition of the TS clauses")
     wl = [dict(w, name=n) for n, w in worlds.CATALOGUE.items()]
-    for _ in range(14 if quick else 120):
+    for _ in range(10 if quick else 120):
         wl.append(worlds.random_world(rng, maxatoms=4))
-    for _ in range(14 if quick else 120):
+    for _ in range(12 if quick else 120):
         wl.append(layered_world(rng))
     budget = 2500 if quick else 12000            # bound on the number of candidate subsets TLC has to look at
+    sizecap = 500 if quick else 2500             # bound on the number of clusters (all four families) per case
     cases, meta = [], []
     for w in wl:
         wkey = w["name"]
@@ -266,79 +321,74 @@ def run(ctx):
             if nspec > 1 and rng.random() < 0.4:
                 excl = [rng.randrange(nspec)]
             allowed = [c for c in range(nspec) if c not in excl]
-            nshell = rng.choice((1, 2, 2, 3) if quick else (1, 2, 3, 4))
+            # 2D worlds are cheap: go to the shell that contains twice a jump vector; 3D worlds stay close
+            nshell = rng.choice((3, 3, 4) if ow["dim"] == 2 else ((1, 2, 2, 3) if quick else (1, 2, 3, 4)))
             K = rng.choice((2, 3, 3) if quick else (2, 3, 3, 4))
-            # shrink until TLC's work is bounded
-            while True:
-                sh, B = shells(ow, nshell)
-                if sh is None or len(sh) <= nshell:
-                    nshell -= 1
-                    if nshell < 1:
-                        break
-                    continue
-                cut2 = sh[nshell - 1] + sh[nshell]
-                B = box_for(ow, cut2)
-                nmax, ntot = neighbour_count(ow, cut2, B, set(allowed))
-                work = sum(math.comb(nmax, n) for n in range(K)) * sum(len(ow["basis"][c]) for c in allowed)
-                big = max(abs(x) for r in ow["M"] for x in r) * (ow["D"] * (B + 2)) ** 2 * ow["dim"] ** 2
-                if work <= budget and big < 2 ** 30 and B <= 4:
-                    break
-                if K > 2 and (nshell == 1 or rng.random() < 0.5):
-                    K -= 1
-                elif nshell > 1:
-                    nshell -= 1
-                else:
-                    nshell = 0
-                    break
-            if nshell < 1:
-                continue
-            cutoff = unit * math.sqrt(cut2 / (2.0 * q)) / ow["D"]
             chem = rng.choice(allowed)
-            key = "%s|K=%d|shell=%d|excl=%s|chem=%d" % (wkey, K, nshell, ",".join(map(str, excl)) or "-", chem)
-            # jump network of species chem: cutoff midway between its first (or second) and next shell
             jsh, _ = shells(ow, 2, {chem})
-            jn, jcutoff = [], None
-            if jsh and len(jsh) >= 2:
+            jcutoff = None
+            if jsh and len(jsh) >= 2:        # jump cutoff midway between the first (or second) and the next shell of chem
                 js = rng.choice((1, 1, 2)) if len(jsh) >= 3 else 1
                 jcutoff = unit * math.sqrt((jsh[js - 1] + jsh[js]) / (2.0 * q)) / ow["D"]
-            try:
-                cexp = cluster.makeclusters(crys, cutoff, K, exclude=tuple(excl))
-                vexp = cluster.makeVacancyClusters(crys, chem, cexp)
-                if jcutoff is not None:
-                    jn = crys.jumpnetwork(chem, jcutoff)
-                texp = cluster.makeTSclusters(crys, chem, jn, cexp)
-                vtexp = cluster.makeTSclusters(crys, chem, jn, vexp)
-                case = {"type": "enum", "w": ow, "cut2": cut2, "B": B, "K": K, "excl": [c + 1 for c in excl],
-                        "chem": chem + 1, "clusters": proj_sets(cexp, "plain"), "vac": proj_sets(vexp, "vac"),
-                        "jumps": proj_jumps(crys, chem, jn), "ts": proj_sets(texp, "ts"),
-                        "vts": proj_sets(vtexp, "vts")}
-            except worlds.ProjectionError as ex:
-                ctx.case(key)
-                ctx.violation("projection|%s" % key, "world %s: %s" % (w["name"], ex), {"world": w, "observed": ow})
-                continue
-            except Exception as ex:
-                ctx.case(key)
-                ctx.violation("raises|%s|%s" % (type(ex).__name__, key),
-                              "world %s cutoff %.6f K=%d exclude=%s chem=%d: %s: %s" % (
-                                  w["name"], cutoff, K, excl, chem, type(ex).__name__, ex), {"world": w, "observed": ow})
+            case = None
+            while True:
+                pl = plan_cut(ow, allowed, nshell, K, budget, rng)
+                if pl is None:
+                    break
+                nshell, K, cut2, B = pl
+                cutoff = unit * math.sqrt(cut2 / (2.0 * q)) / ow["D"]
+                key = "%s|K=%d|shell=%d|excl=%s|chem=%d" % (wkey, K, nshell, ",".join(map(str, excl)) or "-", chem)
+                try:
+                    cexp = cluster.makeclusters(crys, cutoff, K, exclude=tuple(excl))
+                    vexp = cluster.makeVacancyClusters(crys, chem, cexp)
+                    jn = crys.jumpnetwork(chem, jcutoff) if jcutoff is not None else []
+                    texp = cluster.makeTSclusters(crys, chem, jn, cexp)
+                    vtexp = cluster.makeTSclusters(crys, chem, jn, vexp)
+                    total = sum(len(x) for e in (cexp, vexp, texp, vtexp) for x in e)
+                    if total > sizecap and (K > 2 or nshell > 1):      # too much for TLC in this tier: come closer
+                        if K > 2 and (nshell == 1 or rng.random() < 0.5):
+                            K -= 1
+                        else:
+                            nshell -= 1
+                        continue
+                    case = {"type": "enum", "w": ow, "cut2": cut2, "B": B, "K": K, "excl": [c + 1 for c in excl],
+                            "chem": chem + 1, "clusters": proj_sets(cexp, "plain"), "vac": proj_sets(vexp, "vac"),
+                            "jumps": proj_jumps(crys, chem, jn), "ts": proj_sets(texp, "ts"),
+                            "vts": proj_sets(vtexp, "vts")}
+                except worlds.ProjectionError as ex:
+                    ctx.case(key)
+                    ctx.violation("projection|%s" % key, "world %s: %s" % (w["name"], ex), {"world": w, "observed": ow})
+                except Exception as ex:
+                    ctx.case(key)
+                    ctx.violation("raises|%s|%s" % (type(ex).__name__, key),
+                                  "world %s cutoff %.6f K=%d exclude=%s chem=%d: %s: %s" % (
+                                      w["name"], cutoff, K, excl, chem, type(ex).__name__, ex),
+                                  {"world": w, "observed": ow})
+                break
+            if case is None:
                 continue
             cases.append(case)
             meta.append(("enum", key, w, {"cutoff": cutoff, "jcutoff": jcutoff, "K": K, "excl": excl, "chem": chem}))
             # equality / hash table on clusters of this world
-            if trial == 0:
+            if trial == 0 and (not quick or len(meta) % 2 == 0):
                 bases = []
                 flat = [c for s in case["clusters"] for c in s]
-                rng.shuffle(flat)
                 for kind, src in (("plain", flat), ("vac", [c for s in case["vac"] for c in s]),
                                   ("ts", [c for s in case["ts"] for c in s]), ("vts", [c for s in case["vts"] for c in s])):
-                    src = sorted(src, key=lambda c: -len(c))[:40]
+                    src = list(src)
                     rng.shuffle(src)
-                    bases += [(c, kind) for c in src[:2]]
-                if len(flat) > 1:                       # a vts-like list built by hand from a plain cluster with >= 2 sites
-                    big = max(flat, key=len)
-                    if len(big) >= 2:
-                        bases.append(([big[0], big[1], big[1]] + big[2:], "vts"))
-                        bases.append(([big[0], big[1]] + big[2:], "ts"))
+                    src.sort(key=lambda c: -len(c))          # the largest clusters of the family, in random order
+                    bases += [(c, kind) for c in src[:1]]
+                # regular arrangements built by hand: equally spaced collinear sites of one atom (their site sets map
+                # onto themselves under translations combined with inversion: the hardest near misses)
+                atom = [chem + 1, rng.randrange(len(ow["basis"][chem])) + 1]
+                e = [0] * ow["dim"]
+                e[rng.randrange(ow["dim"])] = rng.choice((-1, 1))
+                if rng.random() < 0.3:
+                    e[rng.randrange(ow["dim"])] = rng.choice((-1, 1))
+                chain = lambda ns: [[atom, [n * x for x in e]] for n in ns]
+                bases += [(chain((0, 1, -1)), "ts"), (chain((0, 1, -1)), "vts"), (chain((0, 1, 2, 3)), rng.choice(("ts", "vac"))),
+                          (chain((0, 1, 2)), "plain")]
                 try:
                     ec = eq_case(cluster, rng, ow, bases)
                 except Exception as ex:
@@ -366,22 +416,28 @@ def run(ctx):
             if not inf.get("jumps_closed", True):
                 unclosed += 1
                 fl = [f for f in fl if not f.startswith("ts_")]
-            if fl:
-                ctx.violation("clause|%s|%s" % ("+".join(fl), key),
+            # one violation per family of clauses: the plain expansion, the vacancy expansion, the transition states
+            for fam, pre in (("clusters", ("clusters_", "no_cluster", "every_cluster", "cluster_sets")),
+                             ("vacancy", ("vacancy_",)), ("ts", ("ts_",))):
+                names = [f for f in fl if f.startswith(pre)]
+                if not names:
+                    continue
+                ctx.violation("enum|%s|%s|%s" % (fam, "+".join(names), key),
                               "world %s (observed %s), cutoff %.6f (between exact shells, 2*d^2 < %d in grid units), maxorder "
-                              "%d, exclude %s, chem %d: clause(s) %s of Check_C31 fail; %s orbits / %s clusters returned, "
-                              "%s vacancy, %s TS, %s vacancy-TS clusters; definitional group order %s" % (
+                              "%d, exclude %s, chem %d, jump cutoff %s: clause(s) %s of Check_C31 fail; %s orbits / %s clusters "
+                              "returned, %s vacancy, %s TS, %s vacancy-TS clusters; definitional group order %s" % (
                                   w["name"], cases[i]["w"], opt["cutoff"], cases[i]["cut2"], opt["K"], opt["excl"],
-                                  opt["chem"], fl, inf.get("norbits"), inf.get("nclusters"), inf.get("nvac"),
-                                  inf.get("nts"), inf.get("nvts"), inf.get("ops")),
+                                  opt["chem"], opt["jcutoff"], names, inf.get("norbits"), inf.get("nclusters"),
+                                  inf.get("nvac"), inf.get("nts"), inf.get("nvts"), inf.get("ops")),
                               {"world": w, "options": opt, "case": cases[i]})
         else:
             n = inf.get("items", 0)
             ctx.case(str((cases[i]["w"], cases[i]["items"])), nontrivial=1 < inf.get("classes", 0) < n)
             if fl:
-                ctx.violation("clause|%s|%s" % ("+".join(fl), key),
-                              "world %s: clause(s) %s of Check_C31 fail on a table of %d clusters (%d geometric classes)" % (
-                                  w["name"], fl, n, inf.get("classes", 0)), {"world": w, "case": cases[i]})
+                ctx.violation("eq|%s|%s" % ("+".join(fl), key[3:]),
+                              "world %s: clause(s) %s of Check_C31 fail on a table of %d clusters (%d geometric classes): "
+                              "%s" % (w["name"], fl, n, inf.get("classes", 0), eq_witness(cases[i])),
+                              {"world": w, "case": cases[i]})
         ctx.traces += 1
     ctx.info("cases_with_unclosed_jump_network", unclosed)
     for c in cases:
